@@ -102,6 +102,7 @@ type pushRec struct {
 	blob        []byte
 	subject     ocispec.Descriptor
 	annotations map[string]string
+	manifest    ocispec.Descriptor // as reported by the repository
 }
 
 func (r *sharedRepo) Resolve(ctx context.Context, reference string) (ocispec.Descriptor, error) {
@@ -117,7 +118,7 @@ func (r *sharedRepo) FetchSignatureBlob(ctx context.Context, desc ocispec.Descri
 func (r *sharedRepo) PushSignature(ctx context.Context, mediaType string, blob []byte, subject ocispec.Descriptor, annotations map[string]string) (ocispec.Descriptor, ocispec.Descriptor, error) {
 	r.mu.Lock()
 	defer r.mu.Unlock()
-	r.pushes = append(r.pushes, pushRec{mediaType, append([]byte(nil), blob...), copyDesc(subject), copyMap(annotations)})
+	r.pushes = append(r.pushes, pushRec{mediaType: mediaType, blob: append([]byte(nil), blob...), subject: copyDesc(subject), annotations: copyMap(annotations)})
 	bd := ocispec.Descriptor{MediaType: mediaType, Digest: digestOf(digest.SHA256, blob), Size: int64(len(blob))}
 	return bd, ocispec.Descriptor{MediaType: ocispec.MediaTypeImageManifest, Digest: digestOf(digest.SHA256, append([]byte("m"), blob...)), Size: 500}, nil
 }
@@ -136,8 +137,9 @@ func (r *recRepo) Resolve(ctx context.Context, reference string) (ocispec.Descri
 }
 
 func (r *recRepo) PushSignature(ctx context.Context, mediaType string, blob []byte, subject ocispec.Descriptor, annotations map[string]string) (ocispec.Descriptor, ocispec.Descriptor, error) {
-	rec := pushRec{mediaType, append([]byte(nil), blob...), copyDesc(subject), copyMap(annotations)}
+	rec := pushRec{mediaType: mediaType, blob: append([]byte(nil), blob...), subject: copyDesc(subject), annotations: copyMap(annotations)}
 	b, m, err := r.Repository.PushSignature(ctx, mediaType, blob, subject, annotations)
+	rec.manifest = m
 	if err == nil {
 		r.mu.Lock()
 		r.pushes = append(r.pushes, rec)
@@ -470,6 +472,26 @@ func runNotationSign() int {
 					}
 					co.SubjectOK = descEqualFull(pushes[0].subject, beforeCopy)
 					co.AnnOK = checkManifestAnnotations(pushes[0].annotations, chain)
+					if mem == nil {
+						// on disk: the signature is THERE for whoever opens the layout next (another handle, another program): the
+						// reported manifest exists and is attached to the artifact
+						if st2, err := oci.New(dir); err != nil {
+							co.SubjectOK = false
+						} else {
+							found := false
+							if preds, err := st2.Predecessors(ctx, beforeCopy); err == nil {
+								for _, p := range preds {
+									if p.Digest == pushes[0].manifest.Digest {
+										found = true
+									}
+								}
+							}
+							if !found {
+								co.SubjectOK = false
+								obs.Note += " | the pushed signature manifest is not attached to the artifact in the layout as another handle sees it"
+							}
+						}
+					}
 				} else {
 					co.SubjectOK = false
 				}
